@@ -14,6 +14,9 @@ harness-side instrumentation only:
   * ``Optimizer.zero_grad`` / ``Tensor.backward`` / the global optimiser step hooks / the
     hedger's ``train`` are wrapped; the step pre-hook snapshots every parameter and its ``.grad``.
 
+Histories are [state before, fit] and [state before, fit, (replace hedger.model,) fit] on one hedger; for a
+call with an optimiser class the reference builds a fresh optimiser over the current model's parameters.
+
 Oracles
   (a) the recorded event trace is accepted event-for-event by ``fit_protocol.FitAutomaton``;
   (b) lock-step comparison with ``fit_protocol.reference_fit`` on an identically prepared second
